@@ -190,18 +190,22 @@ def variable_to_string(variable_type, var_value):
     if variable_type.__name__ in ITER_LIKE_TYPES:
         # if interator like then make a custom string - we do not want to mess with iterators
         return 'Iterator of type: %s' % variable_type
-    elif variable_type is dict \
+    if variable_type is dict \
             or variable_type.__name__ in LIST_LIKE_TYPES:
         # if we are a collection then we do not want to use built in string as this can be very
         # large, and quite pointless, instead we just get the size of the collection
-        return 'Size: %s' % len(var_value)
-    else:
         try:
-            # everything else just gets a string value
-            return str(var_value)
+            return 'Size: %s' % len(var_value)
         except BaseException:
-            # it is possible for str to fail if there is a custom __str__ function
-            return f'{type(var_value)}@{id(var_value)}'
+            # the type is recognised by name only: this is an application class that is merely called 'set', 'list' ...
+            # and has no (working) len(), so it is rendered like any other object
+            pass
+    try:
+        # everything else just gets a string value
+        return str(var_value)
+    except BaseException:
+        # it is possible for str to fail if there is a custom __str__ function
+        return f'{type(var_value)}@{id(var_value)}'
 
 
 def process_variable(var_collector: Collector, node: NodeValue) -> VariableResponse:
